@@ -153,6 +153,56 @@ func instrumentFile(path, rel string) error {
 	inComm := map[ast.Node]bool{}
 	twoValueRecv := map[*ast.UnaryExpr]bool{}
 	labelOf := map[ast.Stmt]string{}
+	// names that denote channels in this file (no type information is available: parameters, fields and
+	// variables declared with a chan type or assigned from make(chan ...)); used to recognise "range ch"
+	chanNames := map[string]bool{}
+	isMakeChan := func(e ast.Expr) bool {
+		c, ok := e.(*ast.CallExpr)
+		if !ok || len(c.Args) == 0 {
+			return false
+		}
+		id, ok := c.Fun.(*ast.Ident)
+		if !ok || id.Name != "make" {
+			return false
+		}
+		_, isChan := c.Args[0].(*ast.ChanType)
+		return isChan
+	}
+	nameOf := func(e ast.Expr) string {
+		switch x := e.(type) {
+		case *ast.Ident:
+			return x.Name
+		case *ast.SelectorExpr:
+			return x.Sel.Name
+		}
+		return ""
+	}
+	ast.Inspect(f, func(n ast.Node) bool {
+		switch x := n.(type) {
+		case *ast.Field:
+			if _, ok := x.Type.(*ast.ChanType); ok {
+				for _, nm := range x.Names {
+					chanNames[nm.Name] = true
+				}
+			}
+		case *ast.ValueSpec:
+			_, typed := x.Type.(*ast.ChanType)
+			for i, nm := range x.Names {
+				if typed || (i < len(x.Values) && isMakeChan(x.Values[i])) {
+					chanNames[nm.Name] = true
+				}
+			}
+		case *ast.AssignStmt:
+			for i, r := range x.Rhs {
+				if i < len(x.Lhs) && isMakeChan(r) {
+					if nm := nameOf(x.Lhs[i]); nm != "" {
+						chanNames[nm] = true
+					}
+				}
+			}
+		}
+		return true
+	})
 	ast.Inspect(f, func(n ast.Node) bool {
 		switch x := n.(type) {
 		case *ast.CommClause:
@@ -192,6 +242,25 @@ func instrumentFile(path, rel string) error {
 				}
 				edits = append(edits, edit{off(x.OpPos), off(x.OpPos) + 2, fmt.Sprintf("verifsim.%s(%d, ", fn, id)})
 				edits = append(edits, edit{off(x.X.End()), off(x.X.End()), ")"})
+			}
+		case *ast.RangeStmt:
+			// for v := range ch { ... }  =>  for { v, ok := verifsim.Recv2(site, ch); if !ok { break }; ... }
+			if nm := nameOf(x.X); nm != "" && chanNames[nm] && x.Value == nil {
+				id := newSite(fset, x.Pos(), "range-chan", rel)
+				chText := string(src[off(x.X.Pos()):off(x.X.End())])
+				okVar := fmt.Sprintf("verifsimOk%d", id)
+				var hdr string
+				switch {
+				case x.Key == nil:
+					hdr = fmt.Sprintf("for { _, %s := verifsim.Recv2(%d, %s); if !%s { break }; ", okVar, id, chText, okVar)
+				case x.Tok == token.DEFINE:
+					k := string(src[off(x.Key.Pos()):off(x.Key.End())])
+					hdr = fmt.Sprintf("for { %s, %s := verifsim.Recv2(%d, %s); if !%s { break }; _ = %s; ", k, okVar, id, chText, okVar, k)
+				default:
+					k := string(src[off(x.Key.Pos()):off(x.Key.End())])
+					hdr = fmt.Sprintf("for { var %s bool; %s, %s = verifsim.Recv2(%d, %s); if !%s { break }; ", okVar, k, okVar, id, chText, okVar)
+				}
+				edits = append(edits, edit{off(x.For), off(x.Body.Lbrace) + 1, hdr})
 			}
 		case *ast.SendStmt:
 			if !inComm[x] {
